@@ -281,3 +281,37 @@ claim("C09",
            "table are listed in the evidence.",
       technique="TLA+ model checking (TLC) of covariance laws on the lattice symmetry group + metamorphic conformance by reflection",
       design_ref="DESIGN.md 5 C09")
+
+
+# ---- later extensions of the specification (round 2), appended to the claims they serve ---------------------------------
+_ADD = {
+    "C02": "spec/Prism3.tla adds extruded non-convex lattice polygons (named combs, saw, spiral, zig-zag, star of "
+           "spec/MC_Polygon2.tla and randomly grown ones) with caps cut into the triangles of the growth triangulation: exact "
+           "measures by Fubini from the polygon's exact moments, and the T1 theorem that the divergence-theorem sums over the "
+           "mesh's surface triangles equal them.",
+    "C03": "The projection that is compared after every transition also calls the queries that take arguments "
+           "(compute_form_factor_amplitude at fixed q, distance_to_surface at fixed angles); ShapeMachine has the action "
+           "SetCoreSize (resizing the live core that a rounded shape hands out); long random walks over the TLC state graph "
+           "are replayed in addition to one test per transition.",
+    "C04": "The named many-cornered polygons of spec/MC_Polygon2.tla (6-16 vertices, every relabelling) go through the same T1 "
+           "theorems and the same replay.",
+    "C05": "Rounded solids with general convex cores: exact squared point-polytope distances from spec/Convex3.tla (DistSq) on "
+           "random lattice cores and on named cores where sharp ridges meet nearly flat facets (Blade, Slab, Ridge).",
+    "C06": "The named many-cornered polygons of spec/MC_Polygon2.tla are included with every relabelling.",
+    "C09": "spec/Prism3.tla: prisms over named and grown non-convex lattice polygons whose caps are single non-convex faces are "
+           "replayed as Polyhedron for EVERY start vertex of the cap faces (exact centroid and membership; every other observable "
+           "must do for the shifted labelling what it does for the listed one). spec/AlgPolygon.tla transcribes polytri's ear "
+           "clipping; T1_Triangulate proves on every relabelling of every polygon state that the loop terminates and tiles (a "
+           "wrong loop variant is refuted as a canary), and what the code returns for placed polygons is validated as a tiling.",
+    "C12": "After the first evaluation the volume setter doubles the size and the transform is evaluated again against the same "
+           "exact record (F'(q/2) = 8 F(q)).",
+    "C14": "Placements include edges leaning 4e-6 rad from the axes and a nanometre-sized copy.",
+    "C17": "spec/Factory.tla states the factory contract (the answer for a key is the shape the key defines, whatever was "
+           "requested before or done to earlier answers); all its Get/Mutate histories are replayed against every parametric family.",
+    "C18": "The Get/Mutate histories of spec/Factory.tla are replayed against get_shape of every tabulated family and repository.",
+    "C19": "The dispatch table distinguishes an absent, positive, zero and negative rounding radius, and rounded shapes are "
+           "round-tripped with radius exactly 0 as well.",
+    "C20": "spec/MeshWriters.tla transcribes the writers; T1: Read(Write(m)) = m for every mesh state, wrong writers rejected.",
+}
+for _k, _v in _ADD.items():
+    REG[_k]["text"] += " " + _v
